@@ -1,6 +1,9 @@
 /-
   C16 — the Kubernetes grammar of annotation keys, as decidable functions on `List Char`
-  (specification side of `valid_name`; independent of the key-forming code).
+  (specification side of the `valid_name*` theorems). It shares with the key-forming code only the three
+  one-line predicates `isAlnum` / `headAlnum` / `lastAlnum` over core `Char.isAlphanum`, which
+  `make_edged_name` (kopf c2cffd8) uses as well; the Python oracle judges the real names with its own
+  regular expression.
 
   An annotation key is `[prefix/]name`; the name part is 1..63 characters, alphanumeric at both
   ends, `[-_.A-Za-z0-9]` inside; the prefix is a DNS subdomain: at most 253 characters, labels of
@@ -10,23 +13,12 @@ import Kopf.Model.C16_Storage
 namespace Kopf.C16
 open Kopf Kopf.J
 
-def isAlnum (c : Char) : Bool := c.isAlphanum
-
 def isNameChar (c : Char) : Bool := isAlnum c || c == '-' || c == '_' || c == '.'
 
 /-- the property's handler-id alphabet `[A-Za-z0-9_./<>-]`, plus `:` — the one further character
     kopf's own ids contain (`lambda:<path>:<line>`, `get_callable_id`) -/
 def isIdChar (c : Char) : Bool :=
   isAlnum c || c == '_' || c == '.' || c == '/' || c == '<' || c == '>' || c == '-' || c == ':'
-
-def headAlnum : Str → Bool
-  | [] => false
-  | c :: _ => isAlnum c
-
-def lastAlnum (s : Str) : Bool :=
-  match s.getLast? with
-  | none => false
-  | some c => isAlnum c
 
 def validNamePart (n : Str) : Bool :=
   decide (1 ≤ n.length) && decide (n.length ≤ 63) && headAlnum n && lastAlnum n && n.all isNameChar
@@ -65,25 +57,25 @@ def validQualified (s : Str) : Bool :=
 /-- every character is in the property's alphabet, and there is at least one -/
 def IdOk (k : Str) : Prop := k ≠ [] ∧ k.all isIdChar = true
 
-/-- **Exactly the gap of finding F6.** The name part of the V2 key begins with the first character
-    of the id's safe form, and ends with its last character only when the id is not cut-and-hashed
-    (at most 63 characters); otherwise it ends with the digest suffix. So: first character
-    alphanumeric, and — for ids of at most 63 characters — last character alphanumeric.
-    (`valid_name_v2_exact` proves this is necessary and sufficient.) -/
-def EdgeOk (k : Str) : Prop :=
-  headAlnum (safeKey k) = true ∧ (k.length ≤ 63 → lastAlnum (safeKey k) = true)
+/-- every character is in the property's alphabet (the empty id included: since c2cffd8 it gets the
+    name `x-<hash>`) — the only hypothesis on the id the validity theorems need -/
+def IdChars (k : Str) : Prop := k.all isIdChar = true
 
-/-- the same for the V1 key, which is cut-and-hashed as soon as prefix + `/` + id exceed 63 -/
-def EdgeOkV1 (p : Str) (k : Str) : Prop :=
-  headAlnum (safeKey k) = true ∧ ((pre p).length + k.length ≤ 63 → lastAlnum (safeKey k) = true)
+/-- The id's safe form begins and ends with an ASCII alphanumeric: together with "at most 63 characters"
+    this is when the V2 name is the safe form itself, taken **verbatim**. Every other id gets a
+    *re-formed* name (cut-and-hashed, or — since kopf c2cffd8 — re-edged and hashed). -/
+def Verbatim (k : Str) : Prop := headAlnum (safeKey k) = true ∧ lastAlnum (safeKey k) = true
 
-/-- a usable hash suffix: 1..62 characters of the name alphabet, alphanumeric at the end
-    (the real one is `-` plus six base64 characters ending in `A`, `Q`, `g` or `w`) -/
+/-- a usable hash suffix: 1..62 characters of the name alphabet, alphanumeric at the end.
+    The real one (`make_suffix`: `'-' + b64(blake2b-32, altchars='-.')`, `rstrip('=-.')`) always is
+    `-` plus five characters of `[A-Za-z0-9.-]` plus one of `A`, `Q`, `g`, `w` (the sixth base64 digit
+    carries two bits), so nothing but the padding is ever stripped: 7 characters. The harness checks
+    this shape on EVERY suffix the real `make_suffix` returns during a run. -/
 def GoodSfx (s : Str) : Prop := 1 ≤ s.length ∧ s.length ≤ 62 ∧ s.all isNameChar = true ∧ lastAlnum s = true
 
 instance (k : Str) : Decidable (IdOk k) := by unfold IdOk; infer_instance
-instance (k : Str) : Decidable (EdgeOk k) := by unfold EdgeOk; infer_instance
-instance (p k : Str) : Decidable (EdgeOkV1 p k) := by unfold EdgeOkV1; infer_instance
+instance (k : Str) : Decidable (IdChars k) := by unfold IdChars; infer_instance
+instance (k : Str) : Decidable (Verbatim k) := by unfold Verbatim; infer_instance
 instance (s : Str) : Decidable (GoodSfx s) := by unfold GoodSfx; infer_instance
 
 /-- a status storage field that does not live under `metadata` (nor is `kind`): the default is
@@ -130,15 +122,28 @@ def MarkStable (p : J) : Prop :=
 /-- a flat record: unique keys, no nested objects (the shape of `ProgressRecord`) -/
 def FlatRec (r : Rec) : Prop := wfKvs r = true ∧ ∀ kv ∈ r, kv.2.isObj = false
 
-/-- name part of the v2 key -/
-def v2Name (sfx : Str → Str) (k : Str) : Str :=
+/-- name part of the v2 key before `make_edged_name` (= the whole name part before kopf c2cffd8) -/
+def v2Raw (sfx : Str → Str) (k : Str) : Str :=
   (safeKey k).take (63 - (if k.length > 63 then sfx k else []).length) ++ (if k.length > 63 then sfx k else [])
 
-/-- name part of the v1 key -/
-def v1Name (p : Str) (sfx : Str → Str) (k : Str) : Str :=
+/-- name part of the v1 key before `make_edged_name` -/
+def v1Raw (p : Str) (sfx : Str → Str) (k : Str) : Str :=
   pyTake (safeKey k) (63 - ((pre p).length : Int) -
       ((if ((safeKey k).length : Int) ≤ 63 - ((pre p).length : Int) then [] else sfx (safeKey k)).length : Int))
     ++ (if ((safeKey k).length : Int) ≤ 63 - ((pre p).length : Int) then [] else sfx (safeKey k))
+
+/-- name part of the v2 key -/
+def v2Name (sfx : Str → Str) (k : Str) : Str := edgedName sfx (v2Raw sfx k) k 63
+
+/-- name part of the v1 key -/
+def v1Name (p : Str) (sfx : Str → Str) (k : Str) : Str :=
+  edgedName sfx (v1Raw p sfx k) k (63 - ((pre p).length : Int))
+
+/-- the annotation names as they were formed BEFORE kopf c2cffd8 (no `make_edged_name`): what an
+    operator of an older version has persisted its records under -/
+def makeKeysOld (p : Str) (v1 : Bool) (sfx : Str → Str) (k : Str) : List Str :=
+  if v1 && v1Fits p sfx && (pre p ++ v1Raw p sfx k) != (pre p ++ v2Raw sfx k)
+  then [pre p ++ v2Raw sfx k, pre p ++ v1Raw p sfx k] else [pre p ++ v2Raw sfx k]
 
 /-- a prefix the real constructors accept and Kubernetes can hold: non-empty, no `/` -/
 def PlainPrefix (p : Str) : Prop := p ≠ [] ∧ ∀ ch ∈ p, ch ≠ '/'
